@@ -644,6 +644,16 @@ func (in *Interp) binop(op token.Token, x, y AV, t types.Type) AV {
 		}
 	}
 	if op == token.EQL || op == token.NEQ {
+		// a string known to be non-empty against ""
+		for _, pr := range [][2]AV{{x, y}, {y, x}} {
+			if sy, ok := pr[0].(Sym); ok && sy.NN && sy.T != nil {
+				if bt, isB := sy.T.Underlying().(*types.Basic); isB && bt.Info()&types.IsString != 0 {
+					if str, isStr := asString(pr[1]); isStr && str == "" {
+						return mkBool(op == token.NEQ)
+					}
+				}
+			}
+		}
 		xn, xk := nilness(x)
 		yn, yk := nilness(y)
 		if xk && yk && (xn || yn) {
@@ -954,15 +964,39 @@ func (in *Interp) store(st *State, addr, v AV, pos token.Pos) {
 			case 'c':
 				o.Val = v
 			case 's':
-				if sv, ok := v.(StructV); ok {
+				switch sv := v.(type) {
+				case StructV:
 					o.Fields = map[string]AV{}
 					for k, x := range sv.Fields {
 						o.Fields[k] = x
 					}
+				case Zero:
+					// `x = T{f: v}` on an existing variable is compiled to a clearing store followed by field stores
+					o.Fields = map[string]AV{}
+					o.Opaque = ""
+				case Sym:
+					// an unknown struct value: its fields are the symbol's fields
+					o.Fields = map[string]AV{}
+					o.Opaque = sv.Name
+				default:
+					// a struct value the model has no fields for: what the object holds is unknown from now on
+					o.Fields = map[string]AV{}
+					o.Opaque = "unknown(" + v.String() + ")"
 				}
 			case 'a':
-				if sv, ok := v.(SliceV); ok {
+				switch sv := v.(type) {
+				case SliceV:
 					o.Elems = append([]AV(nil), sv.Elems...)
+				case Zero:
+					if at, ok := o.T.Underlying().(*types.Array); ok {
+						for i := range o.Elems {
+							o.Elems[i] = Zero{at.Elem()}
+						}
+					}
+				default:
+					for i := range o.Elems {
+						o.Elems[i] = Top{"imprecise store"}
+					}
 				}
 			}
 			return
@@ -2100,12 +2134,38 @@ func (in *Interp) finishUnknown(st *State, ctx *CallCtx, ev Event, rts []types.T
 	tag := fmt.Sprintf("ret:%s#%d", ev.Name(), len(st.Events))
 	ret := symResults(rts, tag)
 	if len(ret) == 1 {
-		ret[0] = Sym{Name: tag, T: rts[0], NN: ctx.Fn != nil && neverNil(ctx.Fn, 0)}
+		ret[0] = Sym{Name: tag, T: rts[0], NN: ctx.Fn != nil && (neverNil(ctx.Fn, 0) || sprintfNonEmpty(ctx.Fn, ctx.Args))}
 		ev.Ret = ret[0]
 	}
 	st.Events = append(st.Events, ev)
 	in.havoc(st)
 	k(st, ret, false)
+}
+
+// sprintfNonEmpty: fmt.Sprintf with a constant format that has a literal character outside its verbs gives a
+// non-empty string whatever the operands are (for a string-typed symbol NN means "not the empty string").
+func sprintfNonEmpty(fn *ssa.Function, args []AV) bool {
+	if fn.Name() != "Sprintf" || fn.Pkg == nil || fn.Pkg.Pkg.Path() != "fmt" || len(args) == 0 {
+		return false
+	}
+	format, ok := asString(args[0])
+	if !ok {
+		return false
+	}
+	for i := 0; i < len(format); i++ {
+		if format[i] != '%' {
+			return true
+		}
+		if i+1 < len(format) && format[i+1] == '%' {
+			return true // %% prints a percent sign
+		}
+		// skip the verb: flags, width, precision, verb letter
+		i++
+		for i < len(format) && strings.ContainsRune("+-# 0123456789.*[]", rune(format[i])) {
+			i++
+		}
+	}
+	return false
 }
 
 // markOpaque forgets the contents of struct objects handed to an un-inlined callee.
